@@ -85,6 +85,63 @@ fn one(it: &Item, layout: &str) -> (bool, crate::kit::panics::Verdict, Vec<Strin
     (expect, v, bad)
 }
 
+/// Completeness at the capacity boundary: the public memory column of an honest trace holds trace_length /
+/// PUBLIC_MEMORY_STEP cells (a power of two) and an honest execution may fill it exactly.  For each static layout
+/// the largest main page for which the composition evaluator does not refuse the public input must be a power
+/// of two (found by bisection on the real evaluator; "one cell less than a power of two" is an off-by-one).
+fn public_memory_capacity(ctx: &Ctx, rep: &mut Report) {
+    use crate::props::c16::{comp, setting};
+    use swiftness_air::layout::LayoutTrait;
+    let corpus = crate::refm::stonefile::corpus(ctx);
+    for layout in LAYOUTS.iter().filter(|l| **l != "dynamic") {
+        let pf = match corpus.iter().find(|p| p.loaded.meta.layout == *layout) {
+            Some(p) => p,
+            None => continue,
+        };
+        let base = serde_json::to_value(&pf.loaded.proof.public_input).unwrap();
+        // a trace of 2^16 rows (every builtin of every layout fits at least once; pages stay small)
+        let lt = 16u32;
+        let accepts = |n: usize| -> Option<bool> {
+            let mut v = base.clone();
+            v["log_n_steps"] = json!(format!("{:#x}", lt - 4));
+            v["main_page"] = serde_json::Value::Array((0..n).map(|i| json!({"address": format!("{:#x}", i + 1), "value": format!("{:#x}", 7 * i + 3)})).collect());
+            let pi: swiftness_air::public_memory::PublicInput = serde_json::from_value(v).ok()?;
+            let r = crate::with_layout!(*layout, L, {
+                let mut s = setting::<L>(pf, &mut ctx.rng(0x0310));
+                s.trace_size = crate::kit::b2f(&crate::kit::pow2(lt));
+                s.trace_gen = crate::kit::b2f(&crate::refm::zint::root_of_unity(lt));
+                comp::<L>(&s, &pi, &vec![starknet_crypto::Felt::ONE; L::N_CONSTRAINTS])
+            });
+            Some(match r {
+                Ok(_) => true,
+                Err(e) => !e.contains("ValueOutOfRange"),
+            })
+        };
+        // capacity <= trace length: bisect on [0, 2^lt]
+        let (mut lo, mut hi) = (0usize, (1usize << lt) + 1); // accepts(lo) expected true, accepts(hi) expected false
+        if accepts(lo) != Some(true) || accepts(hi) != Some(false) {
+            rep.cap(&format!("{}: public-memory capacity not bracketed (evaluator refuses an empty page or accepts 2^{}+1 cells)", layout, lt));
+            continue;
+        }
+        while hi - lo > 1 {
+            let mid = lo + (hi - lo) / 2;
+            match accepts(mid) {
+                Some(true) => lo = mid,
+                _ => hi = mid,
+            }
+        }
+        let ok = lo.is_power_of_two();
+        rep.eval(if ok { "capacity:power-of-two" } else { "capacity:NOT-a-power-of-two" });
+        rep.nontrivial_case(&format!("capacity|{}", layout));
+        rep.sample(&format!("capacity-{}", layout), json!({"layout": layout, "log_trace": lt, "largest_accepted_main_page": lo}));
+        if !ok {
+            rep.violation(&format!("verify:matching-build-rejects:full-public-memory:{}", layout),
+                &format!("layout {} at trace 2^{}: the largest main page the composition evaluator accepts has {} cells - not a power of two, so an honest execution that fills its public memory column exactly is refused", layout, lt, lo),
+                json!({"kind": "capacity", "layout": layout}));
+        }
+    }
+}
+
 pub fn run(ctx: &Ctx) -> Report {
     let mut rep = Report::new(
         "C03",
@@ -114,12 +171,18 @@ pub fn run(ctx: &Ctx) -> Report {
             rep.violation(&key, &format!("{} under build {} layout {}: {}", it.name, build_name(), l, b), json!({"kind": "pair", "proof": it.name, "layout": l}));
         }
     }
+    public_memory_capacity(ctx, &mut rep);
     rep.extra.insert("accepted_pairs".into(), json!(accepted));
     rep.bound_completed = format!("complete: {} proofs x 7 layouts on build {}", its.len(), build_name());
     rep
 }
 
 pub fn replay(ctx: &Ctx, case: &Value) -> super::ReplayResult {
+    if case["kind"] == "capacity" {
+        let mut rep = Report::new("C03", "exploration", "");
+        public_memory_capacity(ctx, &mut rep);
+        return Ok((!rep.violations.is_empty(), format!("{:?}", rep.violations.keys().collect::<Vec<_>>())));
+    }
     let name = case["proof"].as_str().ok_or("proof")?;
     let layout = case["layout"].as_str().ok_or("layout")?;
     let its = items(ctx);
